@@ -286,14 +286,26 @@ pub fn drive_c05(t: &Tier, m: &mut Matrix, sink: &mut Sink) {
 
 pub fn drive_c06(t: &Tier, m: &mut Matrix, sink: &mut Sink) {
     let mut rng = Rng::new(t.seed ^ 0xC06);
-    let xs = pool(t, &mut rng, t.q(129, 257), t.quick, t.q(2, 10));
+    let mut xs = pool(t, &mut rng, t.q(129, 257), t.quick, t.q(2, 10));
+    for n in [24usize, 48, 96, 384, 512] {
+        xs.extend(patterns_small(n));
+        xs.push(random_bits(&mut rng, n));
+    }
     for x in &xs {
         let n = x.len();
         let mut ks: Vec<usize> = vec![0, 1, 2, 7, 8, 9, 15, 16, 17, 31, 32, 33, 63, 64, 65, 127, 128, 129, n / 2, n.saturating_sub(1), n, n.saturating_sub(8), n.saturating_sub(64)];
         ks.retain(|k| *k <= n);
         ks.sort();
         ks.dedup();
-        for k in sample(&mut rng, &ks, t.q(4, 24)) {
+        // always: the ends of the range and every whole-word amount; plus a sample of the rest
+        let mut chosen: Vec<usize> = ks.iter().copied().filter(|k| [0, 1, n.saturating_sub(1), n, 8, 16, 24, 32, 48, 64, 96, 128, 192].contains(k)).collect();
+        chosen.extend(sample(&mut rng, &ks, t.q(3, 24)));
+        if n >= 24 {
+            chosen.extend([24usize, 48, 96, 192, 256, 384].iter().copied().filter(|k| *k <= n));
+        }
+        chosen.sort();
+        chosen.dedup();
+        for k in chosen {
             for op in ["rotl", "rotr"] {
                 sink.emit(m.run(&Case::new(op, x.clone()).a(Args::n(k))));
             }
@@ -644,6 +656,18 @@ pub fn drive_c15(t: &Tier, m: &mut Matrix, sink: &mut Sink) {
                 let a = Args { chars: Some(s2), byval: false, ..Default::default() };
                 let ks: Vec<Kind> = ALL_KINDS.iter().copied().filter(|k| k.admits(n)).collect();
                 sink.emit(m.run(&Case::new("from_binary", vec![]).a(a).capsens().xk(ks)));
+            }
+        }
+    }
+    // a leading sign is not a digit (integer parsers accept it)
+    for (op, per) in [("from_binary", 1usize), ("from_hex", 4)] {
+        for n in [1usize, 2, 3, 8, 16, 17, 32, 33, 64, 65, 128, 129] {
+            for sign in ["+", "-"] {
+                let mut s2: Vec<String> = (0..n).map(|i| if i % 2 == 0 { "1".to_string() } else { "0".to_string() }).collect();
+                s2[0] = sign.to_string();
+                let a = Args { chars: Some(s2), byval: n % 2 == 0, ..Default::default() };
+                let ks: Vec<Kind> = ALL_KINDS.iter().copied().filter(|k| k.admits(n * per)).collect();
+                sink.emit(m.run(&Case::new(op, vec![]).a(a).capsens().xk(ks)));
             }
         }
     }
